@@ -93,6 +93,12 @@ def close_points(ksweep=(0, 1, 2, 3, 5, 8, 12)):
     for hook in ('close', 'on_change_state'):
         add(f'subscribe-while-closing@{hook}', 'same', START + [['hold', hook], ['call', 'A', 'close'], settle(0.3), ['subscribe', 'late'], settle(0.2),
                                                                  ['release_all'], settle(0.4), ['sample']])
+    # subscriptions handed out BEFORE close() whose consumer takes its first item only AFTER close() has returned (seed C03-4)
+    for frm in ('initialized', 'finished'):
+        add(f'iterate-after-close@{frm}', 'same', START + (one_run() if frm == 'finished' else []) + [['take_iterators', 'lazy'], ['call', 'A', 'close'], settle(0.3),
+                                                     ['await', 'A'], ['iterate', 'lazy'], settle(0.4), ['sample']])
+    add('iterate-after-close@running', 'other', START + RUN_A + [['take_iterators', 'lazy'], ['call', 'B', 'close'], settle(0.3), ['child', 'return'], settle(0.6),
+                                                                 ['await', 'B'], ['iterate', 'lazy'], settle(0.4), ['sample']])
     # a second close() while the first is in flight (held in the close hook / waiting for the run): it must not raise
     # and must not disturb the first; a third one after the first has returned finds the state closed
     add('closing@close-hook', 'other', START + [['hold', 'close'], ['call', 'A', 'close'], settle(0.3), ['call', 'B', 'close'], settle(0.3),
